@@ -351,7 +351,8 @@ Section Query.
     assert (HC : forall x, In x sup -> x < size E s).
     { intros x Hx. apply D in Hx. apply In_strict_rel in Hx. destruct Hx as [Hx _].
       apply ldir_range in Hx. unfold size. tauto. }
-    destruct (prune_ok up s sup HC sup s1 sup A B (incl_refl _) (incl_refl _) Cn)
+    assert (Hnorm : incl (norm sup) sup) by (intros x Hx; apply In_norm; exact Hx).
+    destruct (prune_ok up s sup HC (norm sup) s1 sup A B Hnorm (incl_refl _) Cn)
       as [P1 [P2 [P3 [P4 [P5 P6]]]]].
     split; [exact P1|]. split; [eapply ext_trans; eauto|]. split; [exact P3|].
     split; [|intros Huc; exists sup; apply (ext_closed _ _ P2); auto].
@@ -362,7 +363,7 @@ Section Query.
       destruct (exists_minimal_below E leq eqb PO (els s) up sup (snd_nodup s HS) k Hk) as [m [Hm [Hmk Hmin]]].
       { apply HC. exact Hk. }
       apply In_strict_rel in Hjk. destruct Hjk as [Hkj Hne].
-      apply (P6 m j Hm Hm).
+      apply (P6 m j (proj2 (In_norm m sup) Hm) Hm).
       + intros x Hx Hmx. apply In_strict_rel in Hmx. apply (Hmin x Hx). exact Hmx.
       + apply In_strict_rel. split; [eapply ldir_trans; eauto|].
         intros ->. apply Hne. symmetry. eapply ldir_antisym; eauto. exact (snd_nodup s HS).
